@@ -1,4 +1,4 @@
-//@unit dc_sync  props=C18  min_verified=4
+//@unit dc_sync  props=C18  min_verified=6
 // C18: the body of SubDeviceGroup::configure_dc_sync from the device filter to the end of the per-device loop, extracted as
 // one R6 fragment (verbatim; what is cut off: the reference-clock lookup in front, returning NoReference when there is none,
 // and the typestate struct rebuilt around it).  The device is the arbitrary network: the reference time read may be any u64.
@@ -7,6 +7,7 @@
 use vstd::prelude::*;
 use vstd::arithmetic::div_mod::*;
 use vstd::arithmetic::mul::*;
+use core::marker::PhantomData;
 verus! {
 
 //@include prelude/errors.rs
@@ -209,6 +210,43 @@ pub open spec fn dc_programmed(d: DcDev, t: u64, dl: int, p: int) -> bool {
             assert(want.contains(d));
         }
     }
+@*/
+
+// ---- the two ends of configure_dc_sync that the fragment above cuts off ----
+impl From<DistributedClockError> for Error {
+/*@fn file=src/error.rs impl="impl From<DistributedClockError> for Error" name=from ret=none canary=0
+@*/
+}
+impl vstd::std_specs::convert::FromSpecImpl<DistributedClockError> for Error {
+    open spec fn obeys_from_spec() -> bool { true }
+    open spec fn from_spec(v: DistributedClockError) -> Error { Error::DistributedClock(v) }
+}
+/*@type file=src/subdevice_group/mod.rs name=DcConfiguration derive="Clone, Copy" @*/
+/*@type file=src/subdevice_group/mod.rs name=HasDc derive="Clone, Copy" @*/
+/// "the station address stored as DC reference by MainDevice::init" (0 = none; dc_ref_address maps 0 to None)
+pub uninterp spec fn dc_ref_of(m: &MainDevice) -> Option<u16>;
+impl MainDevice {
+    #[verifier::external_body]
+    pub fn dc_ref_address(&self) -> (r: Option<u16>) ensures r == dc_ref_of(self) { unimplemented!() }
+}
+/*@fragment file=src/subdevice_group/mod.rs impl="impl<const MAX_SUBDEVICES: usize, const MAX_PDI: usize, R: RawRwLock, S, DC> SubDeviceGroup<MAX_SUBDEVICES, MAX_PDI, R, S, DC>" fn=configure_dc_sync from="@start" to="} = dc_conf;" name=dc_sync_head qual="pub" sig="maindevice: &MainDevice, dc_conf: DcConfiguration -> (r: Result<(u16, Duration, Duration, Duration), Error>)" tail="Ok((reference, start_delay, sync0_period, sync0_shift))" props=C18
+    ensures
+        // a network without a reference clock is rejected - with the documented error - before anything is written
+        dc_ref_of(maindevice) is None ==> r == Err::<(u16, Duration, Duration, Duration), Error>(Error::DistributedClock(DistributedClockError::NoReference)),
+        // otherwise the three configured durations and the reference address go on unchanged and unswapped
+        dc_ref_of(maindevice) is Some ==> r == Ok::<(u16, Duration, Duration, Duration), Error>((dc_ref_of(maindevice)->Some_0, dc_conf.start_delay, dc_conf.sync0_period, dc_conf.sync0_shift)),
+@*/
+
+pub struct Opaque { pub _p: u8 }
+pub struct GroupRec0 { pub id: Opaque, pub pdi: Opaque, pub read_pdi_len: usize, pub pdi_len: usize, pub inner: Opaque }
+pub struct GroupRec { pub id: Opaque, pub pdi: Opaque, pub read_pdi_len: usize, pub pdi_len: usize, pub inner: Opaque, pub dc_conf: HasDc, pub _state: PhantomData<()> }
+/*@fragment file=src/subdevice_group/mod.rs impl="impl<const MAX_SUBDEVICES: usize, const MAX_PDI: usize, R: RawRwLock, S, DC> SubDeviceGroup<MAX_SUBDEVICES, MAX_PDI, R, S, DC>" fn=configure_dc_sync from="Ok(SubDeviceGroup {" to="_state: PhantomData, })" name=dc_sync_tail qual="pub" sig="self_: GroupRec0, sync0_period: u64, sync0_shift: Duration, reference: u16 -> (r: Result<GroupRec, Error>)" tail="" subst="Ok(SubDeviceGroup {=>Ok(GroupRec {" props=C18
+    requires sync0_shift.ns@ <= u64::MAX        // (a shift beyond 584 years would be truncated by `as u64`; outside the quantifier)
+    ensures
+        // what the cycle arithmetic of tx_rx_dc later works with: the checked period, the shift in ns, the reference address
+        r is Ok && (r->Ok_0).dc_conf.sync0_period == sync0_period && (r->Ok_0).dc_conf.sync0_shift == sync0_shift.ns@
+            && (r->Ok_0).dc_conf.reference == reference
+            && (r->Ok_0).read_pdi_len == self_.read_pdi_len && (r->Ok_0).pdi_len == self_.pdi_len,
 @*/
 
 } // verus!
